@@ -1,7 +1,10 @@
 use std::net::SocketAddr;
 
 use socket2::Domain;
+#[cfg(not(pavex_verif))]
 use tokio::net::{TcpListener, TcpStream};
+#[cfg(pavex_verif)]
+use super::sim::{TcpListener, TcpStream};
 
 /// A stream of incoming connections.  
 ///
@@ -132,6 +135,17 @@ impl TryFrom<std::net::TcpListener> for IncomingStream {
         Ok(Self {
             listener: TcpListener::from_std(v)?,
         })
+    }
+}
+
+#[cfg(pavex_verif)]
+impl IncomingStream {
+    #[doc(hidden)]
+    /// Build an [`IncomingStream`] on top of a simulated listener.
+    pub fn from_sim_listener(listener: Box<dyn super::sim::SimListener>) -> Self {
+        Self {
+            listener: TcpListener::Sim(listener),
+        }
     }
 }
 
